@@ -415,6 +415,106 @@ pub fn run(cfg: &Cfg) -> i32 {
             }
             }
         }
+        // C. partly open: through the wrapper, some parameters quoted values, the others free variables (what a partial
+        //    evaluator is for: literal and symbolic arguments side by side); the residual is compiled over the free ones
+        if wrapper_defined {
+            let (items, tail) = case.prog.params.top_items();
+            let simple: Vec<usize> = items.iter().enumerate().filter(|(_, p)| matches!(p, Pat::Var(_, _))).map(|(i, _)| i).collect();
+            for a in case.args.iter().filter(|a| fits(&case.prog.params, a)).take(2) {
+                if simple.is_empty() || items.len() < 2 || tail.is_some() {
+                    break;
+                }
+                let Some(av) = a.proper_list() else { break };
+                if av.len() != items.len() {
+                    break;
+                }
+                // a non-empty proper subset of the plain parameters stays free
+                let mut free: Vec<usize> = simple.iter().cloned().filter(|_| rng.chance(1, 2)).collect();
+                if free.is_empty() {
+                    free.push(simple[rng.below(simple.len())]);
+                }
+                if free.len() == items.len() {
+                    free.pop();
+                }
+                let name_of = |i: usize| match items[i] {
+                    Pat::Var(n, _) => n.clone(),
+                    _ => unreachable!(),
+                };
+                let call = format!("(cx_main {})", (0..items.len()).map(|i| if free.contains(&i) { name_of(i) } else { format!("(q . {})", render_data(&av[i])) }).collect::<Vec<_>>().join(" "));
+                let free_names: Vec<String> = free.iter().map(|i| name_of(*i)).collect();
+                let want = consensus_run_cap(&original, a, 500_000_000);
+                let Outcome::Val(w) = &want else { continue };
+                out.count("evaluations");
+                let free_args = V::list(&free.iter().map(|i| av[*i].clone()).collect::<Vec<_>>());
+                let judge_shape = |out: &mut Out| -> Option<&'static str> {
+                    // the listed findings, by the shape they need: a conditional branch mentioning a free parameter / a let-bound name
+                    if name_in_branch(&case.prog.body, &free_names) {
+                        Some("repl:free-variable-in-conditional-branch-is-quoted-as-its-name")
+                    } else if branch_mentions_a_let_bound_name(&case.prog, &[]) {
+                        out.count("partly_open.finding_attributed_by_shape");
+                        Some("repl:let-bound-variable-in-conditional-branch-becomes-its-name")
+                    } else {
+                        None
+                    }
+                };
+                match s.line(&call) {
+                    Answer::Constant(v) => {
+                        out.count("partly_open.reduced_to_a_constant");
+                        if v == *w {
+                            judged += 1;
+                        } else {
+                            ok = false;
+                            let mut sig = if has_gensym_atom(&v) { Some("repl:let-bound-variable-in-conditional-branch-becomes-its-name") } else { judge_shape(&mut out) };
+                            if sig.is_none() {
+                                // listed finding: with a free variable among the arguments the evaluator can fold the call to a wrong
+                                // constant (observed: ()) when the taken branch of a statically decided conditional still needs primitives
+                                // run.  Attributed only when the very same call with the free variables replaced by their quoted values
+                                // gives exactly the compiled program's result.
+                                let closed_ok = wrapper_call(&case.prog.params, a).map(|c| matches!(s.line(&c), Answer::Constant(x) if x == *w)).unwrap_or(false);
+                                if closed_ok {
+                                    sig = Some("repl:call-with-a-free-argument-folds-to-a-wrong-constant");
+                                }
+                            }
+                            out.violation(json!({"kind":"repl_constant_differs_from_the_compiled_program","engine":"c16","sig":sig,"form":"partly_open","case":id,"definitions":defs,"wrapper":trunc(&format!("(defun-inline cx_main {} {})", params, body),1200),"expression":trunc(&call,600),"repl":v.show(),"compiled_program_returns":w.show(),"args":a.show()}));
+                        }
+                    }
+                    Answer::Residual(r, rs) => {
+                        out.count("partly_open.residual_returned");
+                        match compile_with_body(&program_text(&format!("({})", free_names.join(" ")), &defs, "()"), rs) {
+                            Ok(rp) => {
+                                let got = consensus_run_cap(&rp, &free_args, 2_000_000_000);
+                                match &got {
+                                    Outcome::Val(g) if g == w => {
+                                        judged += 1;
+                                        out.count("partly_open.residual_agrees_with_the_original");
+                                    }
+                                    Outcome::CostCap => out.inconclusive("costcap", json!({"case": id})),
+                                    _ => {
+                                        ok = false;
+                                        let sig = judge_shape(&mut out);
+                                        out.violation(json!({"kind":"residual_program_disagrees_with_the_original","engine":"c16","sig":sig,"form":"partly_open","case":id,"definitions":defs,"wrapper":trunc(&format!("(defun-inline cx_main {} {})", params, body),1200),"expression":trunc(&call,600),"residual":trunc(&r,1000),"free":free_names,"args":a.show(),"original_returns":w.show(),"residual_returns":got.show()}));
+                                    }
+                                }
+                            }
+                            Err(m) => {
+                                ok = false;
+                                let sig = judge_shape(&mut out);
+                                out.violation(json!({"kind":"residual_does_not_compile","engine":"c16","sig":sig,"form":"partly_open","case":id,"definitions":defs,"expression":trunc(&call,600),"residual":trunc(&r,1000),"error":trunc(&m,300)}));
+                            }
+                        }
+                    }
+                    Answer::Error(m) => {
+                        if m.starts_with("PANIC") {
+                            ok = false;
+                            out.violation(json!({"kind":"repl_panicked","engine":"c16","case":id,"definitions":defs,"expression":trunc(&call,600),"panic":m}));
+                        } else {
+                            out.count("partly_open.evaluator_stopped_with_an_error");
+                        }
+                    }
+                    Answer::Nothing => {}
+                }
+            }
+        }
         // B. open expression: the parameters stay free; the residual is compiled in their scope
         out.count("evaluations");
         match s.line(&body) {
